@@ -382,6 +382,21 @@ var c18 = gen.Register(&gen.Check[caseC18]{
 			ret = s.Random()
 		}()
 		if pnc != nil {
+			// "a failing source causes a panic rather than a weak value": the caller that recovers must not find one in the receiver
+			// either - not zero, and not a scalar made of the incomplete block. (That the receiver keeps its old value is not
+			// demanded; any value that does not come out of the failed draw is fine.)
+			if pv := c.Prior.Value(); pv.Sign() != 0 && s.IsZero() {
+				return gen.Fail("Random/weak-value-after-panic", "Random panicked (%v) and left the zero scalar in the receiver, which held %x", pnc, pv)
+			}
+			if c.Fault > 0 && c.Fault < len(stream) {
+				part := make([]byte, 32)
+				start := c.Fault / 32 * 32
+				copy(part, stream[start:c.Fault])
+				pv := new(big.Int).Mod(new(big.Int).SetBytes(part), ref.N)
+				if pv.Sign() != 0 && pv.Cmp(c.Prior.Value()) != 0 && bytes.Equal(s.Encode(), ref.Bytes32(pv)) {
+					return gen.Fail("Random/weak-value-after-panic", "Random panicked (%v) and left the incomplete block %x (zero-padded) in the receiver", pnc, part)
+				}
+			}
 			// a failing (or panicking) source made Random panic and the caller recovered: the package must be as usable as
 			// before - the next call, with a healthy source, returns the first acceptable block it is given
 			o.Class("recovered-then-healthy-source")
